@@ -13,7 +13,7 @@ fn plan(prop: &str, tier: &str) -> Vec<(&'static str, usize)> {
         "C05" => vec![("c05", if t { 4000 } else { 600 }), ("c01bulk", if t { 8 } else { 1 })],
         "C07" => vec![("c07", if t { 4000 } else { 600 })],
         "C08" => vec![("c08", if t { 6000 } else { 800 })],
-        "C09" => vec![("c09", if t { 6000 } else { 800 })],
+        "C09" => vec![("c09", if t { 6000 } else { 800 }), ("c09backlog", if t { 48 } else { 6 })],
         _ => vec![],
     }
 }
